@@ -13,15 +13,24 @@
 (* and WritePacket rolls the position back, so the same bytes are parsed again with every later       *)
 (* packet; when the error queue is full the reader goroutine blocks ("wedged").  Kept out of the       *)
 (* judged shapes; MC_RxPath_Wedge.cfg shows the wedge as a counterexample (spec growth, DESIGN.md).   *)
+(* RESETLAST = TRUE is the repaired code, which forgets the last delivered package when a message is  *)
+(* complete; FALSE is the pinned code, where a response that delivers nothing (only informational      *)
+(* messages / environment changes, or no package at all) after one that ended in a final DONE gets no  *)
+(* final DONE.  HDRDATA = TRUE is the repaired code, which treats a header-only packet of a response as *)
+(* a data packet without data; FALSE is the pinned code, which hands it to the consumer as a package   *)
+(* of its own (-2 in `delivered`) and skips the end-of-message handling.  The peer may send up to      *)
+(* MaxEmpty header-only packets per response: anywhere inside it, and as the EOM packet behind a last  *)
+(* data packet without EOM (the way the repaired transmit side terminates a message whose packets      *)
+(* were all sent full).                                                                                 *)
 EXTENDS PQOps, FiniteSets, TLC, SequencesExt, Json
 
 CONSTANTS MaxBody,     \* largest packet body the peer uses
           Shapes,      \* set of responses
           Rounds,      \* number of request/response rounds
-          GEN
+          GEN, RESETLAST, HDRDATA, MaxEmpty
 
-VARIABLES resp, round, sent, q, lastRx, delivered, hooks, phase, hist, errs
-vars == <<resp, round, sent, q, lastRx, delivered, hooks, phase, hist, errs>>
+VARIABLES resp, round, sent, q, lastRx, delivered, hooks, phase, hist, errs, nempty
+vars == <<resp, round, sent, q, lastRx, delivered, hooks, phase, hist, errs, nempty>>
 ErrCap == 2
 
 Total(r) == FoldSeq(LAMBDA p, a : a + p.n, 0, r)
@@ -30,6 +39,7 @@ PkgAt(r, o, i) == IF o <= r[i].n THEN <<i, o>> ELSE PkgAt(r, o - r[i].n, i + 1)
 Where(o) == PkgAt(resp, o, 1)
 
 IsFinal(p) == p = "doneF"
+AtEOM(l) == IF RESETLAST THEN "none" ELSE l       \* WritePacket: the message is complete
 Passed(k) == k \notin {"info", "env"}
 
 \* the parse loop of WritePacket as one recursive evaluation; s = [q, last, del, hk]
@@ -40,7 +50,7 @@ Loop(s) ==
   IF t.st = "need" THEN
       \* no token byte available: end-of-message handling in tryParsePackage
       IF PQ_IsEOM(t.q) THEN
-          [s EXCEPT !.q = PQ_Empty,
+          [s EXCEPT !.q = PQ_Empty, !.last = AtEOM(s.last),
                     !.del = IF IsFinal(s.last) THEN s.del ELSE Append(s.del, 0)]
       ELSE [s EXCEPT !.q = PQ_SetPos(t.q, saved[1], saved[2])]
   ELSE
@@ -48,11 +58,11 @@ Loop(s) ==
       IF w[2] # 1 THEN [s EXCEPT !.del = Append(s.del, (0-1))]        \* token read in mid-package
       ELSE IF pk.k = "bad" THEN                                       \* parse error: queue it, roll back (or reset at EOM)
           LET b0 == PQ_Bytes(t.q, pk.n - 1) IN
-          IF PQ_IsEOM(b0.q) THEN [s EXCEPT !.q = PQ_Empty, !.er = s.er + 1]
+          IF PQ_IsEOM(b0.q) THEN [s EXCEPT !.q = PQ_Empty, !.last = AtEOM(s.last), !.er = s.er + 1]
           ELSE [s EXCEPT !.q = PQ_SetPos(t.q, saved[1], saved[2]), !.er = s.er + 1]
       ELSE LET b == PQ_Bytes(t.q, pk.n - 1) IN
         IF b.st = "need" THEN
-            IF PQ_IsEOM(b.q) THEN [s EXCEPT !.q = PQ_Empty]
+            IF PQ_IsEOM(b.q) THEN [s EXCEPT !.q = PQ_Empty, !.last = AtEOM(s.last)]
             ELSE [s EXCEPT !.q = PQ_SetPos(b.q, saved[1], saved[2])]
         ELSE
             LET s2 == [s EXCEPT !.q = PQ_Discard(b.q),
@@ -64,13 +74,16 @@ Loop(s) ==
 H(e) == hist' = IF GEN THEN Append(hist, e) ELSE hist
 
 Init == /\ resp \in Shapes /\ round = 1 /\ sent = 0 /\ q = PQ_Empty /\ lastRx = "none"
-        /\ delivered = <<>> /\ hooks = <<>> /\ phase = "recv" /\ hist = <<>> /\ errs = 0
+        /\ delivered = <<>> /\ hooks = <<>> /\ phase = "recv" /\ hist = <<>> /\ errs = 0 /\ nempty = 0
 
-\* the peer sends the next n bytes of the response as one packet (EOM on the last one)
-Send(n) ==
+\* the peer sends the next n bytes of the response as one packet; the packet that completes the
+\* response carries EOM (e) or leaves that to a header-only packet behind it
+Send(n, e) ==
   /\ phase = "recv" /\ sent < Total(resp) /\ n \in 1..MaxBody /\ sent + n <= Total(resp)
   /\ errs <= ErrCap                                   \* a wedged reader takes no more packets
-  /\ LET eom == (sent + n = Total(resp))
+  /\ e \in BOOLEAN /\ (e => sent + n = Total(resp))
+  /\ (sent + n = Total(resp) /\ ~e) => nempty < MaxEmpty
+  /\ LET eom == e
          pkt == [i \in 1..n |-> sent + i]
          s0 == [q |-> PQ_Add(q, pkt, eom), last |-> lastRx, del |-> delivered, hk |-> hooks, er |-> errs]
          s1 == Loop(s0)
@@ -78,17 +91,33 @@ Send(n) ==
         /\ errs' = s1.er
         /\ sent' = sent + n
         /\ phase' = IF eom THEN "eom" ELSE "recv"
-        /\ H([op |-> "Send", n |-> n, resp |-> resp, del |-> s1.del])
-        /\ UNCHANGED <<resp, round>>
+        /\ H([op |-> "Send", n |-> n, e |-> e, resp |-> resp, del |-> s1.del])
+        /\ UNCHANGED <<resp, round, nempty>>
+
+\* the peer sends a header-only packet: the EOM packet once all bytes of the response are sent,
+\* an empty packet in the middle of the response otherwise
+SendEmpty ==
+  /\ phase = "recv" /\ nempty < MaxEmpty /\ errs <= ErrCap
+  /\ LET e == (sent = Total(resp)) IN
+     /\ IF HDRDATA
+        THEN LET s0 == [q |-> PQ_Add(q, <<>>, e), last |-> lastRx, del |-> delivered, hk |-> hooks, er |-> errs]
+                 s1 == Loop(s0)
+             IN /\ q' = s1.q /\ lastRx' = s1.last /\ delivered' = s1.del /\ hooks' = s1.hk /\ errs' = s1.er
+        ELSE /\ delivered' = Append(delivered, (0-2))           \* handed over as a HeaderOnlyPackage
+             /\ UNCHANGED <<q, lastRx, hooks, errs>>
+     /\ phase' = IF e THEN "eom" ELSE "recv"
+     /\ H([op |-> "Empty", n |-> 0, e |-> e, resp |-> resp, del |-> delivered'])
+  /\ nempty' = nempty + 1
+  /\ UNCHANGED <<resp, round, sent>>
 
 NextRound ==
   /\ phase = "eom" /\ round < Rounds
   /\ \E r \in Shapes : resp' = r
-  /\ round' = round + 1 /\ sent' = 0 /\ delivered' = <<>> /\ hooks' = <<>> /\ phase' = "recv"
-  /\ H([op |-> "Round", n |-> 0, resp |-> resp', del |-> <<>>])
+  /\ round' = round + 1 /\ sent' = 0 /\ delivered' = <<>> /\ hooks' = <<>> /\ phase' = "recv" /\ nempty' = 0
+  /\ H([op |-> "Round", n |-> 0, e |-> FALSE, resp |-> resp', del |-> <<>>])
   /\ UNCHANGED <<q, lastRx, errs>>
 
-Next == (\E n \in 1..MaxBody : Send(n)) \/ NextRound
+Next == (\E n \in 1..MaxBody, e \in BOOLEAN : Send(n, e)) \/ SendEmpty \/ NextRound
 Spec == Init /\ [][Next]_vars
 
 ---------------------------------------------------------------------------
@@ -109,7 +138,9 @@ C11_NeverDelivered == \A i \in 1..Len(delivered) : delivered[i] > 0 => Passed(re
 \* the reader never blocks on its own error queue (false for malformed input: see MC_RxPath_Wedge.cfg)
 NoWedge == errs <= ErrCap
 NoDesync == \A i \in 1..Len(delivered) : delivered[i] # (0-1)
+\* C02: nothing is delivered that the server did not send
+NoSpurious == \A i \in 1..Len(delivered) : delivered[i] # (0-2)
 
 GenPrint == (GEN /\ phase = "eom" /\ round = Rounds) => PrintT(<<"SCN", ToJson(hist)>>)
-View == <<resp, round, sent, q, lastRx, delivered, hooks, phase, errs>>
+View == <<resp, round, sent, q, lastRx, delivered, hooks, phase, errs, nempty>>
 =============================================================================
